@@ -48,6 +48,8 @@ def _build(a, memo):
             return ItemVar(a["id"], a["lo"], a["hi"])
         if a.get("$sub"):
             return SubVar(a["id"], (a["lo"], a["hi"]))
+        if a.get("$dtype"):
+            return puan.variable(a["id"], (a["lo"], a["hi"]), dtype=a["$dtype"])
         return puan.variable(a["id"], (a["lo"], a["hi"]))
     if c == "str":
         return a["id"]
@@ -454,6 +456,84 @@ def gen_signed_sum(rng):
     else: a = inner
     if a is not inner and rng.random() < 0.6: a["id"] = "A"
     return a
+
+
+def lookalike_model(rng):
+    """ill-defined models whose two definitions of one id LOOK alike one level down (same class, sign, value and child ids):
+    (1) a named "at least k of 2k-1 named rules" next to its own negation (`Not` keeps the names, and the pushed negation
+    of k-of-(2k-1) is k-of-(2k-1) over the negated rules); (2) two rules under one id whose same-named sub-rules differ.
+    The unchanged errors() rejects all of them."""
+    lf = lambda n: {"c": "str", "id": n}
+    names = rng.sample("abcdefgh", 8)
+    if rng.random() < 0.5:
+        k = rng.choice([1, 2, 2])
+        Ps = [{"c": rng.choice(["Any", "All"]), "args": [lf(names[2 * i]), lf(names[2 * i + 1])], "id": "P%d" % i} for i in range(2 * k - 1)]
+        X = {"c": "AtLeast", "v": k, "args": Ps, "id": "X"}
+        r1 = {"c": "Imply", "cond": X, "cons": lf("z")} if rng.random() < 0.6 else {"c": "Any", "args": [{"c": "Not", "arg": X}, lf("z")]}
+        r2 = {"c": rng.choice(["Any", "All"]), "args": [X, lf("w")]}
+        return {"c": rng.choice(["All", "All", "Any"]), "args": [r1, r2]}
+    sub1 = {"c": "Any", "args": [lf(names[0]), lf(names[1])], "id": "P"}
+    sub2 = {"c": "Any", "args": [lf(names[2]), lf(names[3])], "id": "P"}
+    cls = rng.choice(["All", "Any"])
+    B1 = {"c": cls, "args": [sub1, lf("q")], "id": "B"}
+    B2 = {"c": cls, "args": [sub2, lf("q")], "id": "B"}
+    r2 = {"c": "Imply", "cond": lf("x"), "cons": B2} if rng.random() < 0.5 else {"c": "Any", "args": [B2, lf("y")]}
+    return {"c": rng.choice(["All", "Any"]), "args": [{"c": "Any", "args": [B1, lf("w")]}, r2]}
+
+
+def declared_bounds(a):
+    """leaf id -> (lo, hi) as the constructor expression DECLARES them (a bare string is a boolean variable)"""
+    out = {}
+    def walk(x):
+        if isinstance(x, dict):
+            if x.get("c") == "var": out.setdefault(x["id"], (x["lo"], x["hi"]))
+            elif x.get("c") == "str": out.setdefault(x["id"], (0, 1))
+            else:
+                for k in ("args",):
+                    for y in x.get(k, []): walk(y)
+                for k in ("arg", "cond", "cons"):
+                    if k in x: walk(x[k])
+    walk(a)
+    return out
+
+
+def gen_huge(rng):
+    """a threshold over a quantity far beyond 16 bits (stock levels, prices in cents, timestamps): an integer leaf declared with
+    explicit bounds — with or without `dtype="int"` — and a threshold somewhere in its range, below an All / Any / Imply"""
+    lo, hi = rng.choice([(0, 50000), (0, 100000), (-40000, 60000), (0, 2**40), (-70000, -1)])
+    leaf = {"c": "var", "id": "stock", "lo": lo, "hi": hi}
+    if rng.random() < 0.5: leaf["$dtype"] = "int"
+    others = [{"c": "str", "id": x} for x in rng.sample("yz", rng.randint(0, 1))]
+    sign = rng.choice([1, 1, -1, None])
+    v = rng.choice([rng.randint(lo, hi), rng.randint(max(lo, 32768), hi) if hi > 32768 else lo, hi, lo + 1, 40000, 32768])
+    if sign == -1: v = -v
+    if sign is None and v <= 0: sign = 1
+    inner = {"c": "AtLeast", "v": v, "args": [leaf] + others}
+    if sign is not None: inner["sign"] = sign
+    if rng.random() < 0.6: inner["id"] = "bulk"
+    r = rng.random()
+    w = {"c": "str", "id": "w"}
+    if r < 0.35: a = {"c": "All", "args": [inner, w]}
+    elif r < 0.6: a = {"c": "Any", "args": [inner, w]}
+    elif r < 0.8: a = {"c": "Imply", "cond": inner, "cons": w}
+    else: a = inner
+    if a is not inner and rng.random() < 0.6: a["id"] = "A"
+    return a
+
+
+def gen_valid_huge(rng):
+    for _ in range(50):
+        a = gen_huge(rng)
+        try:
+            o = build(a)
+        except Exception:
+            continue
+        if is_var(o) or o.errors():
+            continue
+        t = snap(o)
+        if well_formed(t):
+            return a, o, t
+    raise RuntimeError("no huge-threshold model generated")
 
 
 def gen_valid_signed_sum(rng):
